@@ -123,8 +123,8 @@ class HistoryEngine(Engine):
     name = "history"
     level = "exploration"
     tiers = {
-        "quick": {"runs": 2500, "wall": 150},
-        "thorough": {"runs": 80000, "wall": 1800},
+        "quick": {"runs": 20000, "wall": 150},
+        "thorough": {"runs": 900000, "wall": 1800},
     }
     components_real = [
         "rope.base.project.Project", "rope.base.history.History (do/undo/redo/selective/drop/limit, _FindChangeDependencies)",
